@@ -1,42 +1,52 @@
 """C27 -- remote SFTP files behave like local Python binary files.
 
-SFTP engine (full wiring: real SFTPClient and SFTPServer over a real channel).
-Generated: programs of up to 40 steps over read(n) / read() / readline(n) /
-readlines / write / seek / tell / flush / truncate / close on one SFTPFile for
-every mode and several buffer sizes, pipelined or not, with initial contents
-containing CR/LF mixes; the same program runs on a local file opened with the
-same mode over a twin copy.
+SFTP engine (full wiring: real SFTPClient and SFTPServer over a real channel of
+a simulated transport pair).  Generated: programs of up to 40 steps over
+read(n) / read() / readline(n) / readlines / write / seek / tell / flush /
+truncate / close on one SFTPFile for every mode and several buffer sizes,
+pipelined or not, with initial contents containing CR/LF mixes; the same program
+runs on a local file opened with the same mode over a twin copy.
 Oracle: returned data and tell() values equal step by step, an operation the
 local file refuses is refused remotely too, and after close the served file is
-byte-identical to the twin."""
-import io
-import os
+byte-identical to the twin.
 
-from sim import core
+A failing program is minimised at the level of the program (drop operations,
+shrink sizes, simplify mode parameters) and the fingerprint is taken from the
+minimal program, so one root cause is one fingerprint."""
+import os
+import random
+
 from sim.core import Violation
 from sim.sftpsim import SftpSession
 
 PROPERTY = "C27"
 LEVEL = "exploration"
-BUDGET = {"quick": {"runs": 1600, "wall": 55}, "thorough": {"runs": 60000, "wall": 570}}
-MODES = ("r", "r+", "w", "w+", "a", "a+", "x", "x+")
+BUDGET = {"quick": {"runs": 1200, "wall": 45}, "thorough": {"runs": 60000, "wall": 570}}
+# local Python mode -> mode string given to SFTPClient.open.  paramiko documents "x" as a flag
+# ("only succeed if the file was created") that has no direct Python counterpart, so Python's
+# "x" / "x+" (exclusive creation, write / read-write) are spelled "wx" / "w+x" remotely.
+MODES = (("r", "r"), ("r+", "r+"), ("w", "w"), ("w+", "w+"), ("a", "a"), ("a+", "a+"), ("x", "wx"), ("x+", "w+x"))
 BUFSIZES = (-1, 0, 1, 2, 17, 1024, 65536)
-RULE = ("Each run: mode from %r, bufsize from %r, pipelined on/off, initial contents 0..100 KiB with CR/LF mix, program "
-        "of 1-40 operations; 3 files per connection." % (MODES, BUFSIZES))
+RULE = ("Each run: 3 files on one connection; per file a mode from r r+ w w+ a a+ x x+, bufsize from %r, pipelined "
+        "on/off, initial contents 0..100 KiB with CR/LF mix, program of 1-40 operations; scheduling and link latency "
+        "from the seed." % (BUFSIZES,))
 COMPONENTS = {"real": ["SFTPClient, SFTPFile, BufferedFile, SFTPServer, SFTPHandle, transports and channel",
                        "scratch directory on the real filesystem"],
               "harness": ["SFTPServerInterface over the scratch directory (modelled on tests/_stub_sftp.py)"],
               "simulated": ["socket", "clock", "scheduling", "entropy"]}
-ASSUMPTIONS = ["not generated: text/universal-newline modes, negative absolute seeks, truncate() without a size",
-               "not compared: return values of write/seek/flush/truncate (paramiko documents none) and exception classes"]
+ASSUMPTIONS = ["not generated: text/universal-newline modes, seeks to a negative position (clamped to 0), truncate() "
+               "without a size, truncate on a file not open for writing",
+               "not compared: return values of write/seek/flush/truncate (paramiko documents none) and exception classes",
+               "Python's mode x / x+ is compared with paramiko's wx / w+x (x is documented as a flag there)"]
+MINIMIZE_CASES = True
 
 
 def sim_kw(seed):
     return {"max_steps": 6_000_000, "max_time": 7200.0}
 
 
-def content(sim, n):
-    r = sim.payload
+def content(seed, n):
+    r = random.Random(seed)
     out = bytearray()
     while len(out) < n:
         k = r.randrange(6)
@@ -51,21 +61,21 @@ def content(sim, n):
     return bytes(out[:n])
 
 
-def gen_program(sim, size_hint):
+def gen_program(sim, size_hint, writable):
     prog = []
     n = 1 + sim.choose(40)
     for _ in range(n):
         k = sim.choose(16)
         if k < 3:
-            prog.append(("read", (0, 1, 7, 100, 5000, 70000)[sim.choose(6)]))
+            prog.append(["read", (0, 1, 7, 100, 5000, 70000)[sim.choose(6)]])
         elif k == 3:
-            prog.append(("read", None))
+            prog.append(["read", None])
         elif k < 6:
-            prog.append(("readline", (None, None, 1, 5, 80, 100000)[sim.choose(6)]))
+            prog.append(["readline", (None, None, 1, 5, 80, 100000)[sim.choose(6)]])
         elif k == 6:
-            prog.append(("readlines",))
+            prog.append(["readlines"])
         elif k < 10:
-            prog.append(("write", content(sim, (0, 1, 10, 100, 1000, 40000)[sim.choose(6)])))
+            prog.append(["write", (0, 1, 10, 100, 1000, 40000)[sim.choose(6)], sim.choose(1000)])
         elif k < 12:
             whence = sim.choose(3)
             if whence == 0:
@@ -74,20 +84,30 @@ def gen_program(sim, size_hint):
                 off = sim.choose(50) - 10
             else:
                 off = -sim.choose(min(size_hint, 50) + 1) if sim.choose(3) else sim.choose(10)
-            prog.append(("seek", off, whence))
+            prog.append(["seek", off, whence])
         elif k == 12:
-            prog.append(("tell",))
+            prog.append(["tell"])
         elif k == 13:
-            prog.append(("flush",))
-        elif k == 14:
-            prog.append(("truncate", sim.choose(size_hint + 30)))
+            prog.append(["flush"])
+        elif k == 14 and writable:
+            prog.append(["truncate", sim.choose(size_hint + 30)])
         else:
-            prog.append(("tell",))
-    prog.append(("close",))
+            prog.append(["tell"])
     return prog
 
 
-def apply(f, op, local):
+def gen_case(sim):
+    mi = sim.choose(len(MODES))
+    size = (0, 10, 300, 5000, 100000)[sim.choose(5)]
+    mode = MODES[mi][0]
+    exists = not mode.startswith("x") or sim.choose(6) == 0
+    return {"mode": mode, "bufsize": BUFSIZES[sim.choose(len(BUFSIZES))], "pipelined": bool(sim.choose(3) == 0),
+            "size": size, "data_seed": sim.choose(1000), "exists": exists,
+            "program": gen_program(sim, size, mode != "r")}
+
+
+def apply(f, op, ref):
+    """ref: the local file (used to keep generated seeks at non-negative positions)."""
     name = op[0]
     if name == "read":
         return f.read() if op[1] is None else f.read(op[1])
@@ -96,95 +116,147 @@ def apply(f, op, local):
     if name == "readlines":
         return list(f.readlines())
     if name == "write":
-        f.write(op[1]); return None
+        f.write(content(op[2], op[1]))
+        return None
     if name == "seek":
-        f.seek(op[1], op[2]); return None
+        f.seek(op[1], op[2])
+        return None
     if name == "tell":
         return f.tell()
     if name == "flush":
-        f.flush(); return None
+        f.flush()
+        return None
     if name == "truncate":
-        f.truncate(op[1]); return None
+        f.truncate(op[1])
+        return None
     if name == "close":
-        f.close(); return None
+        f.close()
+        return None
 
 
 def short(op):
     if op[0] == "write":
-        return "write(%d)" % len(op[1])
+        return "write(%d)" % op[1]
     return "%s(%s)" % (op[0], ",".join(repr(x) for x in op[1:]))
+
+
+def bufclass(b):
+    return "unbuffered" if b <= 0 else "line" if b == 1 else "buffered"
+
+
+def pattern(case, upto=None):
+    prog = case["program"] if upto is None else case["program"][:upto + 1]
+    return "%s %s%s: %s" % (case["mode"], bufclass(case["bufsize"]), " pipelined" if case["pipelined"] else "",
+                            " ".join(op[0] for op in prog))
 
 
 def scenario(sim):
     sim.p_switch = (0.02, 0.1)[sim.choose(2)]
     s = SftpSession(sim, latency=(0.0, 0.002)[sim.choose(2)])
-    samples = []
-    for fi in range(3):
-        samples.append(one_file(sim, s, fi))
-    s.close()
-    return {"sample": samples[0], "nontrivial": True, "counts": [samples[0]["mode"]]}
-
-
-def one_file(sim, s, fi):
-    mode = MODES[sim.choose(len(MODES))]
-    bufsize = BUFSIZES[sim.choose(len(BUFSIZES))]
-    pipelined = bool(sim.choose(3) == 0)
-    size = (0, 10, 300, 5000, 100000)[sim.choose(5)]
-    name = "f%d.bin" % fi
-    exists = not mode.startswith("x") or sim.choose(6) == 0
-    data = content(sim, size)
-    if exists:
-        s.put_both(name, data)
-    prog = gen_program(sim, size)
-    desc = {"mode": mode, "bufsize": bufsize, "pipelined": pipelined, "initial_size": size if exists else None,
-            "program": [short(o) for o in prog]}
-    # open
-    lerr = rerr = None
     try:
-        lf = open(s.lpath(name), mode + "b")
+        if getattr(sim, "case", None) is not None:
+            run_case(sim, s, sim.case, 0)
+            return {"nontrivial": True}
+        first = None
+        for fi in range(3):
+            case = gen_case(sim)
+            first = first or case
+            run_case(sim, s, case, fi)
+    finally:
+        s.close()
+    return {"sample": describe(first), "nontrivial": True, "counts": [first["mode"], bufclass(first["bufsize"])]}
+
+
+def describe(case):
+    d = dict(case)
+    d["program"] = [short(o) for o in case["program"]]
+    return d
+
+
+def clamp_seek(op, lf, lpath):
+    """Keep a generated seek at a non-negative target (negative positions are not generated)."""
+    off, whence = op[1], op[2]
+    if whence == 1:
+        try:
+            cur = lf.tell()
+        except Exception:
+            cur = 0
+        if cur + off < 0:
+            off = -cur
+    elif whence == 2:
+        try:
+            lf.flush()
+        except Exception:
+            pass
+        size = os.path.getsize(lpath)
+        if size + off < 0:
+            off = -size
+    elif off < 0:
+        off = 0
+    return ["seek", off, whence]
+
+
+def run_case(sim, s, case, fi):
+    mode = case["mode"]
+    rmode = dict(MODES)[mode]
+    bufsize = case["bufsize"]
+    pipelined = case["pipelined"]
+    name = "f%d.bin" % fi
+    for p in (s.rpath(name), s.lpath(name)):
+        if os.path.exists(p):
+            os.unlink(p)
+    if case["exists"]:
+        s.put_both(name, content(case["data_seed"], case["size"]))
+    prog = [list(op) for op in case["program"]] + [["close"]]
+    ctx = "(mode %s, bufsize %d, pipelined %s)" % (mode, bufsize, pipelined)
+
+    def fail(fp, msg, upto=None):
+        raise Violation(fp, msg, {"case": case, "program": [short(o) for o in case["program"]],
+                                  "pattern": pattern(case, upto)})
+
+    lerr = rerr = None
+    lf = rf = None
+    try:
+        # append modes: the unbuffered local file is the reference (positions of Python's *buffered* append
+        # files after a seek depend on its own buffer state, which is no part of file semantics)
+        lf = open(s.lpath(name), mode + "b", buffering=0 if mode.startswith("a") else -1)
     except Exception as e:
         lerr = e
     try:
-        rf = s.sftp.open(name, mode, bufsize)
+        rf = s.sftp.open(name, rmode + "b", bufsize)
     except Exception as e:
         rerr = e
     if (lerr is None) != (rerr is None):
-        if lerr is None:
-            lf.close()
-        else:
-            rf.close()
-        raise Violation(("C27", "open-differs", mode, "local-fails" if lerr else "remote-fails"),
-                        "open(%r): local %r, remote %r" % (mode, lerr, rerr), desc)
+        cleanup(lf, rf)
+        fail(("C27", "open-differs", mode, "local-fails" if lerr else "remote-fails"),
+             "open(%r): local %r, remote %r" % (mode, lerr, rerr))
     if lerr is not None:
         sim.probe("open_refused_both")
-        return desc
+        return
     if pipelined:
         rf.set_pipelined(True)
-    kinds = []
     for i, op in enumerate(prog):
-        kinds.append(op[0])
+        if op[0] == "seek":
+            op = clamp_seek(op, lf, s.lpath(name))
         lres = rres = None
         lex = rex = None
         try:
-            lres = apply(lf, op, True)
+            lres = apply(lf, op, None)
         except Exception as e:
             lex = e
         try:
-            rres = apply(rf, op, False)
+            rres = apply(rf, op, None)
         except Exception as e:
             rex = e
-        pattern = "%s: %s" % (mode, " -> ".join(dedupe(kinds)[-3:]))
         if (lex is None) != (rex is None):
             cleanup(lf, rf)
-            raise Violation(("C27", "raises-differs", op[0], "local-raises" if lex else "remote-raises", mode),
-                            "step %d %s: local %s, remote %s (mode %s, bufsize %d, pipelined %s)"
-                            % (i, short(op), "raised %r" % lex if lex else "returned", "raised %r" % rex if rex else "returned",
-                               mode, bufsize, pipelined), desc)
+            fail(("C27", "raises-differs", op[0], "local-raises" if lex else "remote-raises", pattern(case, i)),
+                 "step %d %s: local %s, remote %s %s"
+                 % (i, short(op), "raised %r" % lex if lex else "returned", "raised %r" % rex if rex else "returned", ctx), i)
         if lex is None and op[0] in ("read", "readline", "readlines", "tell") and lres != rres:
             cleanup(lf, rf)
-            raise Violation(("C27", "result-differs", op[0], pattern),
-                            "step %d %s: local %s, remote %s (mode %s, bufsize %d, pipelined %s)"
-                            % (i, short(op), brief(lres), brief(rres), mode, bufsize, pipelined), desc)
+            fail(("C27", "result-differs", op[0], pattern(case, i)),
+                 "step %d %s: local %s, remote %s %s" % (i, short(op), brief(lres), brief(rres), ctx), i)
         sim.probe("ops_compared")
     with open(s.lpath(name), "rb") as f:
         want = f.read()
@@ -194,23 +266,66 @@ def one_file(sim, s, fi):
         i = 0
         while i < min(len(want), len(got)) and want[i] == got[i]:
             i += 1
-        raise Violation(("C27", "final-contents-differ", "%s: %s" % (mode, " -> ".join(dedupe(kinds)[-4:]))),
-                        "after close: local file %d bytes, served file %d bytes, first difference at %d (mode %s, bufsize %d, pipelined %s)"
-                        % (len(want), len(got), i, mode, bufsize, pipelined), desc)
-    return desc
+        fail(("C27", "final-contents-differ", pattern(case)),
+             "after close: local file %d bytes, served file %d bytes, first difference at %d %s"
+             % (len(want), len(got), i, ctx))
 
 
-def dedupe(kinds):
-    out = []
-    for k in kinds:
-        if not out or out[-1] != k:
-            out.append(k)
-    return out
+# ---------------------------------------------------------------- case minimisation
+def same_class(fp_a, fp_b):
+    """Candidates are accepted while the kind of divergence stays the same."""
+    n = 3 if fp_a[1] in ("result-differs", "raises-differs") else 2
+    return list(fp_a[:n]) == list(fp_b[:n])
+
+
+def case_candidates(case):
+    """Yield simpler variants of a failing case, most aggressive first."""
+    prog = case["program"]
+    n = len(prog)
+
+    def with_(**kw):
+        c = dict(case)
+        c.update(kw)
+        return c
+    # drop chunks of operations, then single operations
+    size = n // 2
+    while size >= 1:
+        for i in range(0, n, size):
+            yield with_(program=prog[:i] + prog[i + size:])
+        size //= 2
+    if case["pipelined"]:
+        yield with_(pipelined=False)
+    for small in (0, 10, 300, 5000):
+        if case["size"] > small:
+            yield with_(size=small)
+    # canonical buffer sizes: one representative per class
+    for canon in (0, 1, 1024):
+        if bufclass(canon) == bufclass(case["bufsize"]) and case["bufsize"] != canon:
+            yield with_(bufsize=canon)
+    for i, op in enumerate(prog):
+        if op[0] in ("read", "readline") and op[1] not in (None, 1):
+            for v in (None, 1, 7, 100):
+                if v != op[1] and (v is None or op[1] is None or v < op[1]):
+                    yield with_(program=prog[:i] + [[op[0], v]] + prog[i + 1:])
+        if op[0] == "write" and op[1] > 1:
+            for v in (1, 10, 100, 1000):
+                if v < op[1]:
+                    yield with_(program=prog[:i] + [["write", v, op[2]]] + prog[i + 1:])
+        if op[0] == "truncate" and op[1] > 0:
+            for v in (0, 5):
+                if v < op[1]:
+                    yield with_(program=prog[:i] + [["truncate", v]] + prog[i + 1:])
+        if op[0] == "seek" and op[1] not in (0, 1):
+            for v in (0, 1, 5):
+                if abs(v) < abs(op[1]):
+                    yield with_(program=prog[:i] + [["seek", v, op[2]]] + prog[i + 1:])
 
 
 def brief(v):
     if isinstance(v, (bytes, bytearray)):
         return "%d bytes %r%s" % (len(v), bytes(v[:24]), "..." if len(v) > 24 else "")
+    if isinstance(v, str):
+        return "str %r%s" % (v[:24], "..." if len(v) > 24 else "")
     if isinstance(v, list):
         return "%d lines" % len(v)
     return repr(v)
@@ -219,6 +334,7 @@ def brief(v):
 def cleanup(lf, rf):
     for f in (lf, rf):
         try:
-            f.close()
+            if f is not None:
+                f.close()
         except Exception:
             pass
